@@ -2,7 +2,7 @@
    Directives used: exactly those of ExtrOcamlBasic (bool, option, unit, list, prod, sumbool, sumor,
    andb, orb); nat, positive, Z, Q stay extracted inductive datatypes. *)
 From Coq Require Extraction ExtrOcamlBasic.
-From ME Require Import Model.Cos Model.Retry Model.RetryKernel Model.MapFut Model.Comb Model.Stack Model.Timeout Model.Throttle Model.Gate Model.Poll Model.Chain Model.QGauge Model.Refs.
+From ME Require Import Model.Cos Model.Retry Model.RetryKernel Model.MapFut Model.Comb Model.Stack Model.Timeout Model.Throttle Model.Gate Model.Poll Model.Chain Model.QGauge Model.Refs Model.ExecGauge.
 Extraction Language OCaml.
 Set Extraction AccessOpaque.
-Separate Extraction Cos.accept Retry.accept RetryKernel.run_line MapFut.accept Comb.accept Stack.run_line Timeout.accept Throttle.accept Gate.accept Poll.accept Chain.accept QGauge.accept Refs.accept.
+Separate Extraction Cos.accept Retry.accept RetryKernel.run_line MapFut.accept Comb.accept Stack.run_line Timeout.accept Throttle.accept Gate.accept Poll.accept Chain.accept QGauge.accept Refs.accept ExecGauge.accept.
